@@ -18,6 +18,14 @@ array, and then
    leaf whose separately computed gradient is large enough that the optimizer
    step is representable in float32 did change (``must_change``).
 
+A history-level sub-check (``history``) complements this: the function-level
+cases build their own, separate modules and therefore cannot see aliasing that
+a training routine creates itself (targets, fixed encoders, checkpoints cloned
+inside ``train_*``).  It runs short trainings on scripted environments, demands
+that components returned / logged under different role names share no
+``nnx.Variable``, and applies every update routine of the algorithm to the
+returned state under the same isolation clause.
+
 The objective used for the gradient is the public loss function named in the
 routine's docstring; where the routine assembles its objective from several
 documented pieces (TD7 critic target, REINFORCE / actor-critic weights, PPO
@@ -47,7 +55,11 @@ RULE = (
     "values. Non-trivial = the separately computed gradient of the documented loss w.r.t. the "
     "trained component has max-abs > 0 AND at least two distinct non-trained components (modules, "
     "optimizers, input arrays / keys) were snapshotted around the call. pure_eval: non-trivial = "
-    "at least two components snapshotted and the evaluation returned finite values. Distinct = "
+    "at least two components snapshotted and the evaluation returned finite values. history: a case = "
+    "(training routine in {td7, td3, td3_lap, ddpg, sac, mrq, nature_dqn, ddqn}, episode script, budget <= 40 "
+    "steps, learning_starts, seeds, cadence options incl. target_delay = 1, checkpoints on/off); "
+    "non-trivial = every update applied to the returned state changed its trained component, >= 2 other "
+    "components present and >= 1 pair of returned roles compared for shared variables. Distinct = "
     "distinct canonical case."
 )
 ASSUMPTIONS = [
@@ -63,6 +75,9 @@ ASSUMPTIONS = [
     "fixed networks are allowed (their law is C06's subject); at all other epochs they must be byte-identical",
     "train_ensemble: the first mini-batch depends on the routine's own bootstrap, so only 'some parameter "
     "changed' is required, using the full-data gradient as witness",
+    "history: components that a routine returns (or shows to the logger) under different names are distinct "
+    "roles and must not share nnx.Variable objects; the same object appearing under the same role in the "
+    "passed-in state, the result and the logger is expected",
 ]
 
 _WD = 1e-3
@@ -1534,6 +1549,247 @@ def _pure_kind(case, kind):
 
 
 # ----------------------------------------------------------------------------
+# history level: isolation on the state a training routine creates / returns
+#
+# The function-level sub-checks build their own, separate modules, so they
+# cannot see aliasing that a training routine creates itself (targets, fixed
+# encoders and checkpoints are cloned inside train_*).  Here a short training
+# run is executed on a scripted environment (vlib.routines), then
+# (a) the components the routine returns / logs under different role names
+#     must not share nnx.Variable objects, and
+# (b) every update routine of the algorithm is applied once to the RETURNED
+#     state with a batch from the returned buffer and must satisfy the same
+#     isolation clause (everything but the documented-to-train component is
+#     byte-identical).
+
+_HIST_ROUTINES = ["td7", "td7", "td7", "td3", "ddpg", "sac", "mrq", "nature_dqn", "ddqn", "td3_lap"]
+
+
+@st.composite
+def history_cases(draw):
+    r = draw(st.sampled_from(_HIST_ROUTINES))
+    n_eps = draw(st.integers(2, 4))
+    script = [[draw(st.integers(1, 8)), draw(st.sampled_from(["term", "trunc"]))] for _ in range(n_eps)]
+    c = {"routine": r, "script": script, "script_seed": draw(st.integers(0, 999)),
+         "total_timesteps": draw(st.sampled_from([20, 30, 40])),
+         "learning_starts": draw(st.sampled_from([2, 5, 8])), "batch_size": 2,
+         "seed": draw(st.integers(0, 99)), "net_seed": draw(st.integers(0, 99)), "dseed": draw(gen.seeds())}
+    if r == "td7":
+        c["target_delay"] = draw(st.sampled_from([1, 1, 2, 3]))  # boundary: hard copies at every epoch
+        c["policy_delay"] = draw(st.sampled_from([1, 2]))
+        c["use_checkpoints"] = draw(st.sampled_from([0, 0, 1]))
+    elif r in ("td3", "td3_lap"):
+        c["policy_delay"] = draw(st.sampled_from([1, 2]))
+    elif r == "sac":
+        c["autotune"] = draw(st.integers(0, 1))
+    elif r == "mrq":
+        c["target_delay"] = draw(st.sampled_from([1, 2, 3]))
+        c["learning_starts"] = draw(st.sampled_from([4, 6, 8]))
+        c["script"][0][0] = max(4, c["script"][0][0])  # a first subtrajectory must exist when learning starts
+    elif r in ("nature_dqn", "ddqn"):
+        c["target_update_frequency"] = draw(st.sampled_from([1, 3, 7]))
+        c["update_frequency"] = draw(st.sampled_from([1, 2]))
+    return c
+
+
+def _simplify_history(case):
+    for k, v in (("use_checkpoints", 0), ("total_timesteps", 20), ("policy_delay", 1), ("autotune", 0),
+                 ("update_frequency", 1)):
+        if k in case and case[k] != v:
+            yield dict(case, **{k: v})
+    if len(case["script"]) > 1:
+        yield dict(case, script=case["script"][:-1])
+
+
+def _roles(run, logger):
+    """{source: {role name: module}} for the passed-in state, the returned
+    result and the modules shown to the logger."""
+    nnx = L.nnx
+    out = {"passed": {}, "result": {}, "logged": {}}
+    for k, v in run.state.items():
+        if isinstance(v, (nnx.Module, nnx.Optimizer)):
+            out["passed"][k] = v
+    res = run.result
+    for f in getattr(res, "_fields", ()):
+        v = getattr(res, f)
+        if isinstance(v, (nnx.Module, nnx.Optimizer)):
+            out["result"][f] = v
+    for k, v in logger.modules.items():
+        if isinstance(v, nnx.Module):
+            out["logged"][k] = v
+    ec = getattr(res, "entropy_control", None)
+    if ec is not None and getattr(ec, "autotune", False):
+        out["result"]["entropy_control._alpha"] = ec._alpha
+        out["result"]["entropy_control.optimizer"] = ec.optimizer
+    return out
+
+
+def _split_mrq(roles):
+    """MR.Q's update routines take encoder and policy of the combined module
+    separately: register them as separate roles."""
+    for src in roles.values():
+        for k in [k for k in src if k.startswith("policy_with_encoder")]:
+            m = src.pop(k)
+            src[k + ".encoder"] = m.encoder
+            src[k + ".policy"] = m.policy
+
+
+def run_history(case):
+    from vlib.instruments import make_snapshot_logger
+    from vlib.routines import make_env, run_routine
+
+    jax, nnx = L.jax, L.nnx
+    r = case["routine"]
+    env, _ = make_env(r, {"script": case["script"], "script_seed": case["script_seed"], "obs_dim": 3,
+                          "n_actions": 3, "act_low": [-1.0, -0.5], "act_high": [1.0, 2.0]})
+    cfg = {k: case[k] for k in ("total_timesteps", "learning_starts", "batch_size", "seed", "net_seed")}
+    cfg.update({"buffer_size": 64, "hidden": [4], "lr": 1e-2, "gamma": 0.99})
+    for k in ("target_delay", "policy_delay", "target_update_frequency", "update_frequency"):
+        if k in case:
+            cfg[k] = case[k]
+    if "use_checkpoints" in case:
+        cfg.update(use_checkpoints=bool(case["use_checkpoints"]), steps_before_checkpointing=10,
+                   max_episodes_when_checkpointing=2)
+    if "autotune" in case:
+        cfg["autotune"] = bool(case["autotune"])
+    if r == "mrq":
+        cfg.update(encoder_horizon=2, q_horizon=1)
+    logger = make_snapshot_logger(snapshot=False)
+    run = run_routine(r, env, cfg, logger=logger, capture=False)
+    res = run.result
+    roles = _roles(run, logger)
+    if r == "mrq":
+        _split_mrq(roles)
+
+    # (a) components with different role names never share variables
+    n_pairs = 0
+    for src, d in roles.items():
+        mods = [(k, v) for k, v in d.items() if isinstance(v, nnx.Module)]
+        for i in range(len(mods)):
+            for j in range(i + 1, len(mods)):
+                (n1, m1), (n2, m2) = mods[i], mods[j]
+                n_pairs += 1
+                check(m1 is not m2 and not shares_storage(m1, m2), f"history_{r}.aliasing.{src}.{n1}~{n2}",
+                      lambda: f"after train_{r} the {src} components {n1} and {n2} share nnx.Variable objects "
+                              f"(same object: {m1 is m2})")
+
+    # (b) update routines applied to the returned state
+    sc = Scene(f"history_{r}")
+    names = {}
+    for src in ("result", "passed", "logged"):
+        for k, v in roles[src].items():
+            name = k if src == "result" else f"{src}.{k}"
+            if src != "result" and id(v) in names:
+                continue  # the same object under the same role in another source
+            names.setdefault(id(v), name)
+            (sc.mod if isinstance(v, nnx.Module) else sc.opt)(name, v)
+
+    def nm(obj):
+        return names[id(obj)]
+
+    buf = run.buffer
+    real = getattr(buf, "real", buf)
+    for k, a in real.buffer.items():
+        sc.arr("replay_buffer." + k, a)
+    rng = np.random.default_rng(case["dseed"])
+    key = sc.arr("key", jax.random.PRNGKey(case["dseed"] % 100003))
+    B = case["batch_size"]
+    gamma = 0.99
+    updates = []  # (label, call, trained modules, trained optimizers)
+    if r == "td7":
+        from rl_blox.algorithm.td7 import td7_update_actor, td7_update_critic
+        from rl_blox.blox.embedding.sale import DeterministicSALEPolicy, update_sale
+
+        b = real.sample_batch(B, rng)
+        live_actor = run.state["actor"]
+        updates = [
+            ("update_sale", lambda: update_sale(res.embedding, res.embedding_optimizer, b.observation, b.action,
+                                                b.next_observation),
+             {nm(res.embedding)}, {nm(res.embedding_optimizer)}),
+            ("td7_update_critic", lambda: td7_update_critic(
+                res.fixed_embedding, res.fixed_embedding_target, res.critic, res.critic_target,
+                res.critic_optimizer, gamma, b.observation, b.action, b.next_observation, b.action, b.reward,
+                b.termination, 1.0, -10.0, 10.0), {nm(res.critic)}, {nm(res.critic_optimizer)}),
+            ("td7_update_actor", lambda: td7_update_actor(
+                DeterministicSALEPolicy(res.fixed_embedding, live_actor), res.actor_optimizer, res.critic,
+                b.observation), {nm(live_actor)}, {nm(res.actor_optimizer)}),
+        ]
+    elif r in ("ddpg", "td3", "td3_lap"):
+        from rl_blox.algorithm.ddpg import ddpg_update_actor
+
+        b = real.sample_batch(B, rng)
+        if r == "ddpg":
+            step = _tsl_jit("ddpg_loss")[1]
+            crit = lambda: step(res.q_optimizer, res.q, res.q_target, res.policy_target, b, gamma)  # noqa: E731
+        elif r == "td3":
+            step = _tsl_jit("td3_loss")[1]
+            crit = lambda: step(res.q_optimizer, res.q, res.q_target, b.action, b, gamma)  # noqa: E731
+        else:
+            step = _tsl_jit("td3_lap_loss")[1]
+            crit = lambda: step(res.q_optimizer, res.q, res.q_target, b.action, b, gamma, 1.0)  # noqa: E731
+        updates = [
+            ("train_step", crit, {nm(res.q)}, {nm(res.q_optimizer)}),
+            ("ddpg_update_actor", lambda: ddpg_update_actor(res.policy, res.policy_optimizer, res.q, b.observation),
+             {nm(res.policy)}, {nm(res.policy_optimizer)}),
+        ]
+    elif r == "sac":
+        from rl_blox.algorithm.sac import sac_update_actor
+
+        b = real.sample_batch(B, rng)
+        ec = res.entropy_control
+        step = _tsl_jit("sac_loss")[1]
+        updates = [
+            ("train_step", lambda: step(res.q_optimizer, res.q, res.q_target, res.policy, key, ec.alpha_, b, gamma),
+             {nm(res.q)}, {nm(res.q_optimizer)}),
+            ("sac_update_actor", lambda: sac_update_actor(res.policy, res.policy_optimizer, res.q, key,
+                                                          b.observation, ec.alpha_),
+             {nm(res.policy)}, {nm(res.policy_optimizer)}),
+        ]
+        if ec.autotune:
+            updates.append(("entropy_update", lambda: ec.update(res.policy, b.observation, key),
+                            {nm(ec._alpha)}, {nm(ec.optimizer)}))
+    elif r == "mrq":
+        from rl_blox.algorithm.mrq import update_critic_and_policy
+        from rl_blox.blox.embedding.model_based_encoder import update_model_based_encoder
+
+        pwe, pwe_t = res.policy_with_encoder, res.policy_with_encoder_target
+        b1 = real.sample_batch(B, 1, False, rng)
+        b2 = real.sample_batch(B, 2, True, rng)
+        bins = sc.arr("the_bins", run.state["the_bins"])
+        updates = [
+            ("update_critic_and_policy", lambda: update_critic_and_policy(
+                res.q, res.q_target, res.q_optimizer, pwe.policy, res.policy_optimizer, pwe.encoder, pwe_t.encoder,
+                gamma, 1e-5, b1.action, b1, 1.0, 1.0), {nm(res.q), nm(pwe.policy)},
+             {nm(res.q_optimizer), nm(res.policy_optimizer)}),
+            ("update_model_based_encoder", lambda: update_model_based_encoder(
+                pwe.encoder, pwe_t.encoder, res.encoder_optimizer, bins, 2, 1.0, 0.1, 0.1, 1, B, True, b2,
+                bool(real.environment_terminates)), {nm(pwe.encoder)}, {nm(res.encoder_optimizer)}),
+        ]
+    else:  # nature_dqn, ddqn
+        b = real.sample_batch(B, rng)
+        step = _tsl_jit(r + "_loss")[1]
+        updates = [("train_step", lambda: step(res.optimizer, res.q_net, res.q_target_net, b, gamma),
+                    {nm(res.q_net)}, {nm(res.optimizer)})]
+
+    labels, n_changed = [r], 0
+    for label, call, tm, to in updates:
+        sc.sub = f"history_{r}_{label}"
+        s1 = sc.snap()
+        call()
+        s2 = sc.snap()
+        sc.verify(s1, s2, tm, to)
+        changed = all(bool(diff_states(s1[n], s2[n])) for n in tm)
+        n_changed += changed
+        labels.append(f"{label}:{'changed' if changed else 'unchanged'}")
+    for k in ("target_delay", "use_checkpoints", "policy_delay", "autotune"):
+        if k in case:
+            labels.append(f"{r}:{k}={case[k]}")
+    n_other = sc.n_components() - 2
+    return Outcome(labels=labels + [f"role-pairs={'10+' if n_pairs >= 10 else n_pairs}"],
+                   nontrivial=bool(n_changed == len(updates) and n_other >= 2 and n_pairs >= 1))
+
+
+# ----------------------------------------------------------------------------
 
 _TSL_NAMES = ["dqn_loss", "nature_dqn_loss", "ddqn_loss", "ddqn_per_loss", "ddpg_loss", "td3_loss", "td3_lap_loss",
               "sac_loss"]
@@ -1564,7 +1820,7 @@ def _simplify(case):
             yield c
 
 
-def _sc(name, strat, run, quick=40, thorough=400, cost=1.0):
+def _sc(name, strat, run, quick=40, thorough=300, cost=1.0):
     return SubCheck(name, strat, run, quick=quick, thorough=thorough, shards=1, shards_thorough=4, cost=cost,
                     shrink=False, suppress_too_slow=True, simplify=_simplify, rule=_NT)
 
@@ -1587,8 +1843,12 @@ SUBCHECKS = (
         _sc("train_policy_reinforce", reinforce_cases, run_reinforce),
         _sc("train_policy_actor_critic", ac_cases, run_actor_critic),
         _sc("ensemble", ensemble_cases, run_ensemble, quick=30, cost=3.0),
-        SubCheck("pure_eval", pure_cases, run_pure, quick=30, thorough=400, shards=1, shards_thorough=4, cost=2.0,
+        SubCheck("pure_eval", pure_cases, run_pure, quick=30, thorough=200, shards=1, shards_thorough=4, cost=2.0,
                  shrink=False, suppress_too_slow=True, simplify=_simplify,
                  rule=">= 2 components snapshotted and finite outputs"),
+        SubCheck("history", history_cases, run_history, quick=32, thorough=150, shards=2, shards_thorough=8, cost=6.0,
+                 shrink=False, suppress_too_slow=True, simplify=_simplify_history,
+                 rule="every applied update changed its trained component, >= 2 other components and >= 1 pair "
+                      "of returned roles compared for shared variables"),
     ]
 )
